@@ -308,9 +308,9 @@ impl Family for C07 {
         }
         if let Some(p) = s.backend.plan() {
             if !p.is_empty() {
-                for at in shrink_list(&p.at) {
+                for np in p.shrink(16) {
                     let mut t = s.clone();
-                    t.backend.plan_mut().unwrap().at = at;
+                    *t.backend.plan_mut().unwrap() = np;
                     out.push(t);
                 }
             }
